@@ -301,8 +301,28 @@ func acOne(c acCase, tr *traceWriter) {
 func acCookie(v string, tr *traceWriter) {
 	f := flamego.NewWithLogger(io.Discard)
 	got := ""
-	f.Get("/set", func(c flamego.Context) { c.SetCookie(http.Cookie{Name: "ck", Value: v, Path: "/"}) })
-	f.Get("/get", func(c flamego.Context) { got = c.Cookie("ck") })
+	// the response carries other cookies too, set before and after, whose names resemble the one under test: every
+	// SetCookie call adds its own cookie and leaves the others alone
+	others := map[string]string{"ck_type": "t", "c": "u", "ckk": "w", "CK": "x"}
+	gotOthers := 0
+	f.Get("/set", func(c flamego.Context) {
+		c.SetCookie(http.Cookie{Name: "ck_type", Value: others["ck_type"], Path: "/"})
+		c.SetCookie(http.Cookie{Name: "ckk", Value: others["ckk"], Path: "/"})
+		c.SetCookie(http.Cookie{Name: "ck", Value: v, Path: "/"})
+		c.SetCookie(http.Cookie{Name: "c", Value: others["c"], Path: "/"})
+		c.SetCookie(http.Cookie{Name: "CK", Value: others["CK"], Path: "/"})
+	})
+	f.Get("/get", func(c flamego.Context) {
+		got = c.Cookie("ck")
+		for n, want := range others {
+			if c.Cookie(n) == want {
+				gotOthers++
+			}
+		}
+		if gotOthers != len(others) {
+			got = "?a neighbour cookie was lost or changed: " + got
+		}
+	})
 	panicked := false
 	func() {
 		defer func() {
